@@ -7,3 +7,7 @@ import Props.C13
 #print axioms Webauthn.Props.C13.rejects_reg
 #print axioms Webauthn.Props.C13.rejects_auth
 #print axioms Webauthn.Props.C13.client_data
+#print axioms Webauthn.Props.C13.attachment_values
+#print axioms Webauthn.Props.C13.credential_type_values
+#print axioms Webauthn.Props.C13.attachment_exact
+#print axioms Webauthn.Props.C13.type_exact
